@@ -2,6 +2,8 @@
    Shared state: a heap of runtime.Buffer objects, the runtime buffer pool (runtime/bufferpool.go: bufferPool),
    the templ bytes.Buffer pool (runtime.go: bufferPool), the development-mode text-file cache
    (runtime/watchmode.go: watchModeCache under watchStateMutex), the once-handle counter (once.go: onceHandleIndex).
+   Per goroutine: the request's context value (runtime.go: contextValue - once handles rendered, classes and scripts
+   emitted or registered by CSSMiddleware.ServeHTTP) and its writer, possibly behind the goroutine's own bufio.Writer.
    One scheduled step = one atomic action of one goroutine.  The schedule also chooses WHICH pooled object a
    pool Get returns (sync.Pool promises nothing) and what the clock says at a cache lookup. *)
 From Coq.Strings Require Import Byte String.
@@ -21,18 +23,23 @@ Inductive phase := PGot | PReady | PFlushed.
 Definition phase_flushed (p : phase) : bool := match p with PFlushed => true | _ => false end.
 
 (* per-goroutine private state: the Buffer it holds (heap index), whether it holds a bytes.Buffer,
-   the context value's once set (runtime.go: contextValue.onceHandles), handle ids it created, error flag, remaining actions *)
+   the context value's once set (runtime.go: contextValue.onceHandles), its set of emitted classes and scripts
+   (contextValue.ss: Some l = a map of its own; None = the ONE map [mwss] a middleware shares between requests, which
+   only the variant without [fresh_registry] ever installs), handle ids it created, error flag, remaining actions *)
 Record thread := {
   own : option (nat * phase);
   bown : option bool;
   ctx : list nat;
+  reg : option (list N);
   ids : list N;
   failed : bool;
   prog : list act }.
-Definition tmk o bo cx i f p : thread := {| own := o; bown := bo; ctx := cx; ids := i; failed := f; prog := p |}.
+Definition tmk o bo cx rg i f p : thread := {| own := o; bown := bo; ctx := cx; reg := rg; ids := i; failed := f; prog := p |}.
 
-(* goroutine t's writer (accepts scap bytes, then fails) and the content of the bytes.Buffer it holds *)
-Record sink := { sout : bytes; scap : nat; sbb : bytes }.
+(* goroutine t's writer (accepts scap bytes, then fails), the content of the bytes.Buffer it holds, and the bytes held by
+   its own bufio.Writer in front of the writer when it uses one *)
+Record sink := { sout : bytes; scap : nat; sbb : bytes; spend : option bytes }.
+Definition smk o c b pd : sink := {| sout := o; scap := c; sbb := b; spend := pd |}.
 
 (* runtime/watchmode.go: type watchState struct { modTime; strings } *)
 Record centry := { cmt : N; clines : list bytes }.
@@ -43,17 +50,19 @@ Record world := {
   poolB : list bytes;           (* templ.bufferPool: contents *)
   cache : list (N * centry);    (* watchModeCache *)
   ctr : N;                      (* onceHandleIndex *)
+  mwss : list N;                (* a map owned by the middleware value; the code under test never hands it to a request *)
   threads : list thread;
   sinks : list sink }.
-Definition wmk h pa pb c n ts sk : world :=
-  {| heap := h; poolA := pa; poolB := pb; cache := c; ctr := n; threads := ts; sinks := sk |}.
+Definition wmk h pa pb c n ms ts sk : world :=
+  {| heap := h; poolA := pa; poolB := pb; cache := c; ctr := n; mwss := ms; threads := ts; sinks := sk |}.
 
 (* the code under test, and the variants the refutation lemmas use *)
 Record config := {
   reset_on_get : bool;       (* runtime/bufferpool.go GetBuffer: b.Reset(w) after bufferPool.Get() *)
   reset_on_put : bool;       (* runtime.go ReleaseBuffer: b.Reset() before bufferPool.Put(b) *)
-  flush_before_put : bool }. (* runtime/bufferpool.go ReleaseBuffer: b.Flush() before bufferPool.Put(b) *)
-Definition real : config := {| reset_on_get := true; reset_on_put := true; flush_before_put := true |}.
+  flush_before_put : bool;   (* runtime/bufferpool.go ReleaseBuffer: b.Flush() before bufferPool.Put(b) *)
+  fresh_registry : bool }.   (* runtime.go CSSMiddleware.ServeHTTP: v.addClass(id) into the request's own contextValue, for every registered class *)
+Definition real : config := {| reset_on_get := true; reset_on_put := true; flush_before_put := true; fresh_registry := true |}.
 
 Fixpoint set_nth {A} (i : nat) (x : A) (l : list A) : list A :=
   match l, i with [] , _ => [] | _ :: r, O => x :: r | y :: r, S k => y :: set_nth k x r end.
@@ -93,95 +102,98 @@ Definition deliver (b : buf) (sk : list sink) : list sink * buf * bool :=
   | None => (sk, b, true)
   | Some s =>
       if tgtB b then
-        (set_nth (tgt b) {| sout := sout s; scap := scap s; sbb := sbb s ++ content b |} sk,
+        (set_nth (tgt b) (smk (sout s) (scap s) (sbb s ++ content b) (spend s)) sk,
          {| content := []; err := false; tgt := tgt b; tgtB := tgtB b |}, false)
       else
-        let '(out', rest) := sink_write (scap s) (sout s) (content b) in
-        (set_nth (tgt b) {| sout := out'; scap := scap s; sbb := sbb s |} sk,
+        let '(out', pd', rest) := dest_write (scap s) (sout s) (spend s) (content b) in
+        (set_nth (tgt b) (smk out' (scap s) (sbb s) pd') sk,
          {| content := rest; err := negb (nilb rest); tgt := tgt b; tgtB := tgtB b |}, negb (nilb rest))
   end.
 
 Definition with_content (b : buf) (c : bytes) : buf := {| content := c; err := err b; tgt := tgt b; tgtB := tgtB b |}.
 
+(* the set of emitted classes and scripts a goroutine's context value points to *)
+Definition reg_get (ms : list N) (rg : option (list N)) : list N := match rg with Some l => l | None => ms end.
+
 (* one atomic action of goroutine t *)
 Definition step (cfg : config) (fs : fsys) (w : world) (s : nat * option nat * N) : option world :=
   let '(t, pick, now) := s in
-  let '{| heap := hp; poolA := pa; poolB := pb; cache := ca; ctr := cn; threads := ts; sinks := sk |} := w in
+  let '{| heap := hp; poolA := pa; poolB := pb; cache := ca; ctr := cn; mwss := ms; threads := ts; sinks := sk |} := w in
   match nth_error ts t with None => None | Some th =>
-  let '{| own := o; bown := bo; ctx := cx; ids := is; failed := fl; prog := p |} := th in
+  let '{| own := o; bown := bo; ctx := cx; reg := rg; ids := is; failed := fl; prog := p |} := th in
   let T th' := set_nth t th' ts in
   match o with
   | Some (i, PGot) =>
       (* Buffer.Reset(w): Underlying = w, bufio.Writer.Reset(w) *)
       match nth_error hp i with None => None | Some b =>
         let b' := if reset_on_get cfg then {| content := []; err := false; tgt := t; tgtB := is_some bo |} else b in
-        Some (wmk (set_nth i b' hp) pa pb ca cn (T (tmk (Some (i, PReady)) bo cx is fl p)) sk)
+        Some (wmk (set_nth i b' hp) pa pb ca cn ms (T (tmk (Some (i, PReady)) bo cx rg is fl p)) sk)
       end
   | Some (i, PFlushed) =>
       (* second half of templruntime.ReleaseBuffer *)
       if flush_before_put cfg then
-        Some (wmk hp (i :: pa) pb ca cn (T (tmk None bo cx is fl p)) sk)                      (* bufferPool.Put(b) *)
+        Some (wmk hp (i :: pa) pb ca cn ms (T (tmk None bo cx rg is fl p)) sk)                      (* bufferPool.Put(b) *)
       else
         match nth_error hp i with None => None | Some b =>                                    (* variant: the flush comes after the Put *)
           let '(sk', b', e) := deliver b sk in
-          Some (wmk (set_nth i b' hp) pa pb ca cn (T (tmk None bo cx is (fl || e) p)) sk')
+          Some (wmk (set_nth i b' hp) pa pb ca cn ms (T (tmk None bo cx rg is (fl || e) p)) sk')
         end
   | _ =>
   match bo with
   | Some true =>
       (* second half of templ.ReleaseBuffer: bufferPool.Put(b) *)
       match nth_error sk t with None => None | Some s =>
-        Some (wmk hp pa (sbb s :: pb) ca cn (T (tmk o None cx is fl p)) (set_nth t {| sout := sout s; scap := scap s; sbb := [] |} sk))
+        Some (wmk hp pa (sbb s :: pb) ca cn ms (T (tmk o None cx rg is fl p)) (set_nth t (smk (sout s) (scap s) [] (spend s)) sk))
       end
   | _ =>
   match p with [] => None | a :: r =>
   match a with
-  | Begin => Some (wmk hp pa pb ca cn (T (tmk o bo [] is false r)) sk)
+  | Begin => Some (wmk hp pa pb ca cn ms (T (tmk o bo [] (Some []) is false r)) sk)       (* InitializeContext: v := &contextValue{} *)
   | Get =>
       match o with Some _ => None | None =>
         match pick_pool pick pa with
-        | Some (i, pa') => Some (wmk hp pa' pb ca cn (T (tmk (Some (i, PGot)) bo cx is fl r)) sk)
-        | None => Some (wmk (hp ++ [fresh_buf t (is_some bo)]) pa pb ca cn (T (tmk (Some (length hp, PGot)) bo cx is fl r)) sk)
+        | Some (i, pa') => Some (wmk hp pa' pb ca cn ms (T (tmk (Some (i, PGot)) bo cx rg is fl r)) sk)
+        | None => Some (wmk (hp ++ [fresh_buf t (is_some bo)]) pa pb ca cn ms (T (tmk (Some (length hp, PGot)) bo cx rg is fl r)) sk)
         end
       end
   | Write s =>
-      if fl then Some (wmk hp pa pb ca cn (T (tmk o bo cx is fl r)) sk) else
+      if fl then Some (wmk hp pa pb ca cn ms (T (tmk o bo cx rg is fl r)) sk) else
       match o with
       | Some (i, _) =>
           match nth_error hp i with None => None | Some b =>
-            if err b then Some (wmk hp pa pb ca cn (T (tmk o bo cx is true r)) sk)
-            else Some (wmk (set_nth i (with_content b (content b ++ s)) hp) pa pb ca cn (T (tmk o bo cx is fl r)) sk)
+            if err b then Some (wmk hp pa pb ca cn ms (T (tmk o bo cx rg is true r)) sk)
+            else Some (wmk (set_nth i (with_content b (content b ++ s)) hp) pa pb ca cn ms (T (tmk o bo cx rg is fl r)) sk)
           end
       | _ => None end
   | Lookup f k =>
-      if fl then Some (wmk hp pa pb ca cn (T (tmk o bo cx is fl r)) sk) else
+      if fl then Some (wmk hp pa pb ca cn ms (T (tmk o bo cx rg is fl r)) sk) else
       match o with
       | Some (i, _) =>
           match nth_error hp i with None => None | Some b =>
             let '(res, ca') := cache_lookup fs now ca f in
             match (match res with Some ls => nth_error ls k | None => None end) with
-            | Some s => if err b then Some (wmk hp pa pb ca' cn (T (tmk o bo cx is true r)) sk)
-                        else Some (wmk (set_nth i (with_content b (content b ++ s)) hp) pa pb ca' cn (T (tmk o bo cx is fl r)) sk)
-            | None => Some (wmk hp pa pb ca' cn (T (tmk o bo cx is true r)) sk)
+            | Some s => if err b then Some (wmk hp pa pb ca' cn ms (T (tmk o bo cx rg is true r)) sk)
+                        else Some (wmk (set_nth i (with_content b (content b ++ s)) hp) pa pb ca' cn ms (T (tmk o bo cx rg is fl r)) sk)
+            | None => Some (wmk hp pa pb ca' cn ms (T (tmk o bo cx rg is true r)) sk)
             end
           end
       | _ => None end
   | Once h k =>
-      if fl then Some (wmk hp pa pb ca cn (T (tmk o bo cx is fl r)) sk) else
-      if existsb (Nat.eqb h) cx then Some (wmk hp pa pb ca cn (T (tmk o bo cx is fl (skipn k r))) sk)
-      else Some (wmk hp pa pb ca cn (T (tmk o bo (h :: cx) is fl r)) sk)
+      if fl then Some (wmk hp pa pb ca cn ms (T (tmk o bo cx rg is fl r)) sk) else
+      if existsb (Nat.eqb h) cx then Some (wmk hp pa pb ca cn ms (T (tmk o bo cx rg is fl (skipn k r))) sk)
+      else Some (wmk hp pa pb ca cn ms (T (tmk o bo (h :: cx) rg is fl r)) sk)
   | NewHandle =>
-      if fl then Some (wmk hp pa pb ca cn (T (tmk o bo cx is fl r)) sk) else
+      if fl then Some (wmk hp pa pb ca cn ms (T (tmk o bo cx rg is fl r)) sk) else
       (* atomic.AddInt64(&onceHandleIndex, 1) *)
-      Some (wmk hp pa pb ca (cn + 1)%N (T (tmk o bo cx ((cn + 1)%N :: is) fl r)) sk)
-  | Err => Some (wmk hp pa pb ca cn (T (tmk o bo cx is true r)) sk)
+      Some (wmk hp pa pb ca (cn + 1)%N ms (T (tmk o bo cx rg ((cn + 1)%N :: is) fl r)) sk)
+  | Err => Some (wmk hp pa pb ca cn ms (T (tmk o bo cx rg is true r)) sk)
   | Flush =>
-      if fl then Some (wmk hp pa pb ca cn (T (tmk o bo cx is fl r)) sk) else
+      if fl then Some (wmk hp pa pb ca cn ms (T (tmk o bo cx rg is fl r)) sk) else
       match o with
       | Some (i, _) =>
           match nth_error hp i with None => None | Some b =>
             let '(sk', b', e) := deliver b sk in
-            Some (wmk (set_nth i b' hp) pa pb ca cn (T (tmk o bo cx is e r)) sk')
+            Some (wmk (set_nth i b' hp) pa pb ca cn ms (T (tmk o bo cx rg is e r)) sk')
           end
       | _ => None end
   | Release =>
@@ -191,30 +203,76 @@ Definition step (cfg : config) (fs : fsys) (w : world) (s : nat * option nat * N
           if flush_before_put cfg then
             match nth_error hp i with None => None | Some b =>
               let '(sk', b', e) := deliver b sk in
-              Some (wmk (set_nth i b' hp) pa pb ca cn (T (tmk (Some (i, PFlushed)) bo cx is (fl || e) r)) sk')
+              Some (wmk (set_nth i b' hp) pa pb ca cn ms (T (tmk (Some (i, PFlushed)) bo cx rg is (fl || e) r)) sk')
             end
-          else Some (wmk hp (i :: pa) pb ca cn (T (tmk (Some (i, PFlushed)) bo cx is fl r)) sk)
+          else Some (wmk hp (i :: pa) pb ca cn ms (T (tmk (Some (i, PFlushed)) bo cx rg is fl r)) sk)
       | None => None end
   | BGet =>
       match bo, nth_error sk t with
       | None, Some s =>
           let '(c, pb') := match pick_pool pick pb with Some (c, pb') => (c, pb') | None => ([], pb) end in
-          Some (wmk hp pa pb' ca cn (T (tmk o (Some false) cx is fl r)) (set_nth t {| sout := sout s; scap := scap s; sbb := c |} sk))
+          Some (wmk hp pa pb' ca cn ms (T (tmk o (Some false) cx rg is fl r)) (set_nth t (smk (sout s) (scap s) c (spend s)) sk))
       | _, _ => None end
   | BDrain =>
-      if fl then Some (wmk hp pa pb ca cn (T (tmk o bo cx is fl r)) sk) else
+      if fl then Some (wmk hp pa pb ca cn ms (T (tmk o bo cx rg is fl r)) sk) else
       match bo, nth_error sk t with
       | Some _, Some s =>
-          let '(out', rest) := sink_write (scap s) (sout s) (sbb s) in
-          Some (wmk hp pa pb ca cn (T (tmk o bo cx is (negb (nilb rest)) r)) (set_nth t {| sout := out'; scap := scap s; sbb := sbb s |} sk))
+          let '(out', pd', rest) := dest_write (scap s) (sout s) (spend s) (sbb s) in
+          Some (wmk hp pa pb ca cn ms (T (tmk o bo cx rg is (negb (nilb rest)) r)) (set_nth t (smk out' (scap s) (sbb s) pd') sk))
       | _, _ => None end
   | BRelease =>
       (* first half of templ.ReleaseBuffer: b.Reset() *)
       match bo, nth_error sk t with
       | Some _, Some s =>
-          Some (wmk hp pa pb ca cn (T (tmk o (Some true) cx is fl r))
-                  (set_nth t {| sout := sout s; scap := scap s; sbb := if reset_on_put cfg then [] else sbb s |} sk))
+          Some (wmk hp pa pb ca cn ms (T (tmk o (Some true) cx rg is fl r))
+                  (set_nth t (smk (sout s) (scap s) (if reset_on_put cfg then [] else sbb s) (spend s)) sk))
       | _, _ => None end
+  | Mid regs =>
+      (* runtime.go CSSMiddleware.ServeHTTP: ctx, v := getContext(r.Context()); for each registered class v.addClass(c.ID) *)
+      if fresh_registry cfg then
+        match rg with
+        | Some l => Some (wmk hp pa pb ca cn ms (T (tmk o bo cx (Some (regs ++ l)) is fl r)) sk)
+        | None => Some (wmk hp pa pb ca cn (regs ++ ms) (T (tmk o bo cx rg is fl r)) sk)
+        end
+      else
+        (* variant: the middleware keeps ONE precomputed map of its registered classes and installs it in every request's context value *)
+        Some (wmk hp pa pb ca cn ms (T (tmk o bo cx None is fl r)) sk)
+  | EmitOnce k s =>
+      (* RenderCSSItems / RenderScriptItems: if !v.has...BeenRendered(k) { sb.WriteString(..); v.add...(k) }; then the element is written *)
+      if fl then Some (wmk hp pa pb ca cn ms (T (tmk o bo cx rg is fl r)) sk) else
+      if existsb (N.eqb k) (reg_get ms rg) then Some (wmk hp pa pb ca cn ms (T (tmk o bo cx rg is fl r)) sk) else
+      let ms' := match rg with Some _ => ms | None => k :: ms end in
+      let rg' := match rg with Some l => Some (k :: l) | None => None end in
+      match o with
+      | Some (i, _) =>
+          match nth_error hp i with None => None | Some b =>
+            if err b then Some (wmk hp pa pb ca cn ms' (T (tmk o bo cx rg' is true r)) sk)
+            else Some (wmk (set_nth i (with_content b (content b ++ s)) hp) pa pb ca cn ms' (T (tmk o bo cx rg' is fl r)) sk)
+          end
+      | _ => None end
+  | OwnWrap =>
+      (* bw := bufio.NewWriter(w); from now on the goroutine hands bw to its renders *)
+      match o, bo, nth_error sk t with
+      | None, None, Some s =>
+          match spend s with
+          | None => Some (wmk hp pa pb ca cn ms (T (tmk o bo cx rg is fl r)) (set_nth t (smk (sout s) (scap s) (sbb s) (Some [])) sk))
+          | Some _ => None end
+      | _, _, _ => None end
+  | OwnWrite x =>
+      match nth_error sk t with
+      | Some s =>
+          let '(out', pd', _) := dest_write (scap s) (sout s) (spend s) x in
+          Some (wmk hp pa pb ca cn ms (T (tmk o bo cx rg is fl r)) (set_nth t (smk out' (scap s) (sbb s) pd') sk))
+      | None => None end
+  | OwnFlush =>
+      match nth_error sk t with
+      | Some s =>
+          match spend s with
+          | Some q => let '(out', rest) := sink_write (scap s) (sout s) q in
+                      Some (wmk hp pa pb ca cn ms (T (tmk o bo cx rg is fl r)) (set_nth t (smk out' (scap s) (sbb s) (Some rest)) sk))
+          | None => Some (wmk hp pa pb ca cn ms (T (tmk o bo cx rg is fl r)) sk)
+          end
+      | None => None end
   end end end end end.
 
 Fixpoint exec (cfg : config) (fs : fsys) (w : world) (sch : list (nat * option nat * N)) : option world :=
@@ -225,8 +283,8 @@ Fixpoint steps_of (t : nat) (sch : list (nat * option nat * N)) : nat :=
   match sch with [] => 0 | (u, _, _) :: r => (if Nat.eqb u t then 1 else 0) + steps_of t r end.
 
 (* the start: nothing held, nothing written; each goroutine has its program and its writer's capacity *)
-Definition init_threads (progs : list (list act * nat)) : list thread := map (fun pc => tmk None None [] [] false (fst pc)) progs.
-Definition init_sinks (progs : list (list act * nat)) : list sink := map (fun pc => {| sout := []; scap := snd pc; sbb := [] |}) progs.
+Definition init_threads (progs : list (list act * nat)) : list thread := map (fun pc => tmk None None [] (Some []) [] false (fst pc)) progs.
+Definition init_sinks (progs : list (list act * nat)) : list sink := map (fun pc => smk [] (snd pc) [] None) progs.
 
 (* what goroutine t can see of the world: its own state with the Buffer it holds read through the heap *)
 Definition view (w : world) (t : nat) : option lstate :=
@@ -240,7 +298,7 @@ Definition view (w : world) (t : nat) : option lstate :=
                                   | None => None end
                 end in
       match lb with
-      | Some lb => Some (lmk lb (bown th) (sbb s) (sout s) (scap s) (ctx th) (length (ids th)) (failed th) (prog th))
+      | Some lb => Some (lmk lb (bown th) (sbb s) (sout s) (scap s) (ctx th) (reg_get (mwss w) (reg th)) (spend s) (length (ids th)) (failed th) (prog th))
       | None => None end
   | _, _ => None
   end.
